@@ -169,17 +169,28 @@ func main() {
 				return true
 			})
 			if orderFuncs[key] {
-				var seq []string
-				var calls []*ast.CallExpr
+				// ledger-relevant calls and every `return`, in source order: an early return slipped in
+				// between two ledger steps (or before a balance is zeroed) changes the sequence
+				type item struct {
+					pos  token.Pos
+					name string
+				}
+				var items []item
 				ast.Inspect(fd.Body, func(n ast.Node) bool {
-					if c, ok := n.(*ast.CallExpr); ok && orderCalls[calleeName(c)] {
-						calls = append(calls, c)
+					switch x := n.(type) {
+					case *ast.CallExpr:
+						if orderCalls[calleeName(x)] {
+							items = append(items, item{x.Pos(), calleeName(x)})
+						}
+					case *ast.ReturnStmt:
+						items = append(items, item{x.Pos(), "return"})
 					}
 					return true
 				})
-				sort.SliceStable(calls, func(i, j int) bool { return calls[i].Pos() < calls[j].Pos() })
-				for _, c := range calls {
-					seq = append(seq, calleeName(c))
+				sort.SliceStable(items, func(i, j int) bool { return items[i].pos < items[j].pos })
+				seq := []string{}
+				for _, it := range items {
+					seq = append(seq, it.name)
 				}
 				order[key] = seq
 			}
